@@ -110,6 +110,16 @@ def rowwise(fails, name, f, arg_kinds, int_ok=True, n_long=N_LONG, kw=None, sque
     try:
         long_args = build(n_long)
         ref = {i: call([a[i] for a in long_args]) for i in (0, 1, 2, 7, n_long - 1)}
+        # an EMPTY batch is a batch: same trailing dimensions as a batch of one, leading dimension 0
+        try:
+            one = call([a[:1] for a in long_args])
+            emp = call([a[:0] for a in long_args])
+            for o1, o0 in zip(one if isinstance(one, tuple) else (one,), emp if isinstance(emp, tuple) else (emp,)):
+                if np.shape(o0) != (0,) + np.shape(o1)[1:]:
+                    fails.append(dict(function=name, form="empty batch", what="shape %s, a batch of one has %s" % (np.shape(o0), np.shape(o1))))
+                    break
+        except Exception as exc:
+            fails.append(dict(function=name, form="empty batch", what="raised %r" % (exc,)))
         for n in (1, 2, 3, n_long):
             out = call([a[:n] for a in long_args])
             lead = np.asarray(out[0] if isinstance(out, tuple) else out).shape[:1]
@@ -253,7 +263,23 @@ def battery(py):
              {"columns in another order": lambda: (_traj(5, order=PERM), np.array([0.25, 1.0, 1.75])),
               "attitude columns interleaved": lambda: (_traj(5, order=["pitch", "lat", "roll", "VN", "heading", "lon", "VE", "alt", "VD"]), np.array([0.25, 1.0, 1.75])),
               "query times as a list": lambda: (_traj(5), [0.25, 1.0, 1.75])})
-    res["transform"][0] += 9 * 12 + 10
+    try:
+        tr = _traj(5)
+        none = T.resample_state(tr, np.array([]))
+        onept = T.resample_state(tr, np.array([1.25]))
+        three = T.resample_state(tr, np.array([0.25, 1.25, 1.75]))
+        if len(none) != 0 or list(none.columns) != list(tr.columns):
+            f.append(dict(function="transform.resample_state", form="no query time", what="%d rows, columns %s" % (len(none), list(none.columns))))
+        d = _cmp(three.iloc[1:2], onept, only_ref_keys=False)
+        if d:
+            f.append(dict(function="transform.resample_state", form="one query time", what="differs from the same time among three: %s" % d))
+        ends = T.resample_state(tr, np.array([tr.index[0], tr.index[-1]]))
+        d = _cmp(tr.iloc[[0, -1]].drop(columns=["roll", "pitch", "heading"]), ends.drop(columns=["roll", "pitch", "heading"]), rtol=1e-13, only_ref_keys=False)
+        if d:
+            f.append(dict(function="transform.resample_state", form="query exactly at the first and last sample", what=d))
+    except Exception as exc:
+        f.append(dict(function="transform.resample_state", form="empty / single / end-point queries", what="raised %r" % (exc,)))
+    res["transform"][0] += 9 * 12 + 10 + 4
     # ---- util ----------------------------------------------------------------------------------------
     f = section("util")
     rowwise(f, "util.skew_matrix", U.skew_matrix, [("v", "v", "v")])
@@ -329,7 +355,19 @@ def battery(py):
                  lambda: (_traj(5), pd.Series(np.arange(1, 10) * 0.1, index=["north", "east", "down", "VN", "VE", "VD", "roll", "pitch", "heading"])),
                  {"trajectory columns in another order": lambda: (_traj(5, order=PERM), pd.Series(np.arange(1, 10) * 0.1, index=["north", "east", "down", "VN", "VE", "VD", "roll", "pitch", "heading"])),
                   "error labels in another order": lambda: (_traj(5), pd.Series(np.arange(1, 10) * 0.1, index=["north", "east", "down", "VN", "VE", "VD", "roll", "pitch", "heading"])[::-1])})
-    res["error_model"][0] += 2 * 40
+        # propagate_errors is causal: the first rows for a long trajectory are the rows for the trajectory cut after them
+        try:
+            e0 = pd.Series(np.arange(1, 10) * 0.1, index=["north", "east", "down", "VN", "VE", "VD", "roll", "pitch", "heading"])
+            args = (np.array([1e-5, 2e-5, -1e-5]), np.array([1e-2, -1e-2, 2e-2]))
+            long_ = EM.propagate_errors(_traj(6), e0, *args, with_altitude=wa)
+            for n in (2, 3):
+                short = EM.propagate_errors(_traj(6).iloc[:n], e0, *args, with_altitude=wa)
+                d = _cmp(tuple(x_.iloc[:n] for x_ in long_), tuple(short), only_ref_keys=False)
+                if d:
+                    f.append(dict(function="error_model.propagate_errors(%s)" % wa, form="trajectory of %d rows" % n, what="differs from the first rows of a longer one: %s" % d))
+        except Exception as exc:
+            f.append(dict(function="error_model.propagate_errors(%s)" % wa, form="short trajectories", what="raised %r" % (exc,)))
+    res["error_model"][0] += 2 * 44
     # ---- strapdown ------------------------------------------------------------------------------------
     f = section("strapdown")
     rng = np.random.RandomState(3)
@@ -350,7 +388,22 @@ def battery(py):
                   "axes z, y, x": lambda: (imu(order=cols[2::-1] + cols[:2:-1]),), "an extra column first": lambda: (imu(extra=True),)})
         labelled(f, "strapdown.compute_increments_from_imu(%s)" % st, lambda d: S.compute_increments_from_imu(d, st), lambda: (imu(v=np.round(vals)),),
                  {"all-integer readings (int64 table)": lambda: (imu(v=np.round(vals).astype(np.int64)),)})
-    res["strapdown"][0] += 12
+    # short records: every increment row depends on its own and the neighbouring sample only, so the first rows of a long
+    # record are what a record cut after them gives; one sample gives an empty table with the documented columns
+    for st in ("rate", "increment"):
+        try:
+            long_ = S.compute_increments_from_imu(imu(), st)
+            for n in (2, 3):
+                short = S.compute_increments_from_imu(imu().iloc[:n], st)
+                d = _cmp(long_.iloc[:n - 1], short, only_ref_keys=False)
+                if d:
+                    f.append(dict(function="strapdown.compute_increments_from_imu(%s)" % st, form="record of %d samples" % n, what="differs from the first rows of a longer record: %s" % d))
+            one = S.compute_increments_from_imu(imu().iloc[:1], st)
+            if len(one) != 0 or list(one.columns) != list(long_.columns):
+                f.append(dict(function="strapdown.compute_increments_from_imu(%s)" % st, form="record of 1 sample", what="%d rows, columns %s" % (len(one), list(one.columns))))
+        except Exception as exc:
+            f.append(dict(function="strapdown.compute_increments_from_imu(%s)" % st, form="short records", what="raised %r" % (exc,)))
+    res["strapdown"][0] += 12 + 8
     # ---- inertial_sensor ---------------------------------------------------------------------------------
     f = section("inertial_sensor")
 
